@@ -22,6 +22,7 @@ type metaCase struct {
 	Kind   string      `json:"kind"`             // include | include-flags | except | defs
 	Perms  [][]int     `json:"perms,omitempty"`  // C07: permutations of the definition lines to try
 	Strict bool        `json:"strict,omitempty"` // byte equality is required (the hand-written program is unambiguous)
+	IO     *ioScenario `json:"io,omitempty"`     // an I/O-fault scenario (the other fields are unused then)
 }
 
 // metaCompare runs both programs and compares stdout (bytes first, then language).
@@ -70,6 +71,9 @@ func metaCompare(env *core.Env, root string, p, q string, strict bool, what stri
 
 func metaCheck(env *core.Env, cc core.Case) core.Verdict {
 	c := cc.(*metaCase)
+	if c.IO != nil {
+		return ioScenarioCheck(env, "C05-C07", c.IO)
+	}
 	p := c.Prog
 	root := emptyRoot(env)
 	defer rmCase(root)
@@ -698,7 +702,7 @@ func init() {
 		ID:    "C05",
 		Level: "exploration",
 		Rule: "including programs (include at top level beside entries and markers, inside an assemble block with markers and stored names, inside a cmdline block; optional flags and own definitions) x generated include files (word lists with comments, blank lines, indentation; own prefixes and/or suffixes; own definitions; nested includes to depth 3; placed in include/ or exclude/; referenced with and without .ra) are compiled by the built CLI and compared with the same program in which the harness's spec-level inliner typed the lines in place. " +
-			"Oracle: identical stdout (bytes first, otherwise exact language comparison with confirmed witness); a reference to a name that only an include file defines stays literal on both sides; an include file that carries a flags line (directly or one level deeper) must make generate fail with empty stdout. Non-trivial = the inlined program differs from the original.",
+			"Oracle: identical stdout (bytes first, otherwise exact language comparison with confirmed witness); a reference to a name that only an include file defines stays literal on both sides; an include file that carries a flags line (directly or one level deeper) must make generate fail with empty stdout. Non-trivial = the inlined program differs from the original. Plus I/O-fault scenarios (iofault.go): every read - or every read but the first - of one file longer than two buffers fails with EIO (strace injection): the command must fail without printing or writing a partial result, or what it produced must be the complete result.",
 		Cases: func(env *core.Env, rng *rand.Rand) []core.Case {
 			n := env.N(1500, 15000)
 			var cs []core.Case
@@ -711,6 +715,9 @@ func init() {
 					cs = append(cs, m)
 				}
 			}
+			for _, sc := range ioCases("C05") {
+				cs = append(cs, &metaCase{Kind: "io", IO: sc})
+			}
 			return cs
 		},
 		Check:         metaCheck,
@@ -721,7 +728,7 @@ func init() {
 		ID:    "C06",
 		Level: "exploration",
 		Rule: "generated `include-except F X1..Xn [-- pairs]` programs: F is a word list with duplicates, blank lines, comments and own definitions; 1..3 exclude files (empty, disjoint, overlapping, superset; in include/ or exclude/; with and without .ra); 0..4 suffix-replacement pairs including \"\" deletions and replacements that end in another pair's key (no key is a suffix of another key); at top level or inside a block; sometimes a plain include with the same pairs. " +
-			"Oracle: stdout equals that of the program in which the harness wrote the surviving, rewritten entries by hand (F's entries after F's own definition expansion, minus every entry of every Xi, original order, each pair applied once to the original ending): byte-identical when F has no duplicate entry, exact language equality otherwise. Non-trivial = the hand-written program differs from the original.",
+			"Oracle: stdout equals that of the program in which the harness wrote the surviving, rewritten entries by hand (F's entries after F's own definition expansion, minus every entry of every Xi, original order, each pair applied once to the original ending): byte-identical when F has no duplicate entry, exact language equality otherwise. Non-trivial = the hand-written program differs from the original. Plus I/O-fault scenarios (iofault.go): every read - or every read but the first - of one file longer than two buffers fails with EIO (strace injection): the command must fail without printing or writing a partial result, or what it produced must be the complete result.",
 		Cases: func(env *core.Env, rng *rand.Rand) []core.Case {
 			n := env.N(1500, 15000)
 			var cs []core.Case
@@ -729,6 +736,17 @@ func init() {
 				m := c06Gen(rng)
 				raTerminators(m.Prog, i)
 				cs = append(cs, m)
+			}
+			// an exclude file with a line of more than 64 KiB between exclusions that match
+			for _, at := range []int{0, 1, 2} {
+				ex := []string{"bravo", "delta", "golf"}
+				ex = append(ex[:at], append([]string{strings.Repeat("xy", 35000)}, ex[at:]...)...)
+				p := &ra.Program{Lane: "include-except", Main: "head\n##!> include-except words longx\ntail\n", Features: []string{"exclude-file-with-64KiB-line"},
+					Files: ra.Files{Include: map[string]string{"words": "alpha\nbravo\ncharlie\ndelta\necho\ngolf\n"}, Exclude: map[string]string{"longx": strings.Join(ex, "\n") + "\n"}}}
+				cs = append(cs, &metaCase{Prog: p, Kind: "except", Strict: true})
+			}
+			for _, sc := range ioCases("C06") {
+				cs = append(cs, &metaCase{Kind: "io", IO: sc})
 			}
 			return cs
 		},
@@ -740,7 +758,7 @@ func init() {
 		ID:    "C07",
 		Level: "exploration",
 		Rule: "generated programs with 0..6 definitions (acyclic reference graphs; values with metacharacters, quantifier braces and alternations; names with '-' and '_'), references in entries, inside blocks, in prefix and suffix lines, in included text and in an include file's own prefix line, plus references to undefined names; definition lines placed anywhere with varying spacing. " +
-			"Oracle: stdout is byte-identical to that of the program in which the harness expanded every reference textually (undefined names stay literal, definition lines removed) and byte-identical for every permutation of the definition lines (all permutations up to 4 definitions, 24 sampled beyond). Non-trivial = at least one definition and the expanded program differs.",
+			"Oracle: stdout is byte-identical to that of the program in which the harness expanded every reference textually (undefined names stay literal, definition lines removed) and byte-identical for every permutation of the definition lines (all permutations up to 4 definitions, 24 sampled beyond). Non-trivial = at least one definition and the expanded program differs. Plus I/O-fault scenarios (iofault.go): every read - or every read but the first - of one file longer than two buffers fails with EIO (strace injection): the command must fail without printing or writing a partial result, or what it produced must be the complete result.",
 		Cases: func(env *core.Env, rng *rand.Rand) []core.Case {
 			n := env.N(1000, 8000)
 			var cs []core.Case
@@ -748,6 +766,9 @@ func init() {
 				m := c07Gen(rng)
 				raTerminators(m.Prog, i)
 				cs = append(cs, m)
+			}
+			for _, sc := range ioCases("C07") {
+				cs = append(cs, &metaCase{Kind: "io", IO: sc})
 			}
 			return cs
 		},
